@@ -10,7 +10,7 @@ ThoroughSlices == <<
      {1, 2, 50}, [c \in {"large"} |-> {QLarge, QOdd}]),
   Sl(<<"api", "web">>, <<"large", "small">>, <<"east">>,
      [s \in {"api", "web"} |-> AllBodies],
-     [s \in {"api", "web"} |-> AllKinds \ {"bare", "udp80", "as8080", "svcglobal"}],
+     [s \in {"api", "web"} |-> AllKinds \ {"bareonly", "barehosts", "udp80", "as8080", "svcglobal"}],
      {2}, [c \in {"large", "small"} |-> IF c = "large" THEN {QLarge} ELSE {QSmall}]),
   Sl(<<"api", "web">>, <<"large", "small">>, <<"east", "west">>,
      [s \in {"api", "web"} |-> IF s = "web" THEN AllBodies ELSE NoneAll],
